@@ -13,6 +13,7 @@ import (
 	"fmt"
 	"io"
 	"net"
+	"strings"
 	"sync"
 	"sync/atomic"
 	"testing"
@@ -31,7 +32,7 @@ import (
 
 const (
 	c02Watchdog = 30 * time.Second
-	c02Patience = 10 * time.Second
+	c02Patience = 20 * time.Second
 )
 
 type c02Script struct {
@@ -237,9 +238,32 @@ func (lv *c02Live) scenario(m *vk.M, tag string, sc c02Script) bool {
 		}
 	}
 	late := sc.Kind == "late" || sc.Kind == "latepanic"
+	if late && atomic.LoadInt64(&c02Hangs) > 0 {
+		m.Count("gated_skipped_after_hang", 1)
+		return false
+	}
 	o, got := wait(c02Patience)
 	if !got {
 		if late {
+			select {
+			case <-run.blocked:
+				// the server-side deadline fired (handler recorded ctx.Done()), the handler is
+				// still parked on the harness gate, the client has no status after a generous
+				// watchdog: the server answers only when the handler returns
+				atomic.AddInt64(&c02Hangs, 1)
+				var dump strings.Builder
+				for _, gr := range vk.GoroutinesIn("serverinterceptors.") {
+					if dump.Len() < 6000 {
+						dump.WriteString(gr + "\n\n")
+					}
+				}
+				m.Violate("C02:rpcserver:"+sc.Kind+":caller-blocked-until-handler-returns", desc, "server timeout %v: the handler observed ctx.Done() and is parked on the harness gate; %v later the client still has no status. Goroutines:\n%s", lv.tmo, c02Patience, dump.String())
+				run.release()
+				wait(c02Watchdog)
+				return false
+			default:
+			}
+			atomic.AddInt64(&c02Hangs, 1)
 			m.Count("late_patience_expired", 1)
 			run.release()
 		}
@@ -309,6 +333,8 @@ func (lv *c02Live) scenario(m *vk.M, tag string, sc c02Script) bool {
 }
 
 var c02Sampled sync.Map
+
+var c02Hangs int64
 
 // streamScenario: one bidirectional stream. A panic in the stream handler must
 // reach the client as codes.Internal (StreamCrashInterceptor) and the server must
